@@ -224,6 +224,17 @@ def markerToks (cfg : Cfg) (n : Str) : List Tok := lex cfg (cfg.markerPre ++ n +
 
 abbrev Reg := List (Str × List Tok)
 
+/-- the include pass on one token; `rec` renders a registered template -/
+def incTok (cfg : Cfg) (reg : Reg) (rec : List Tok → Except Err (List Tok × List Str)) : Tok → Except Err (List Tok)
+  | .inc n =>
+    match lookup n reg with
+    | some body =>
+      (match rec body with
+       | .ok (x, _) => .ok x
+       | .error e => .error e)
+    | none => .ok (markerToks cfg n)
+  | t => .ok [t]
+
 /-- `translate` on tokens: (output tokens, warned names) -/
 def renderTok (cfg : Cfg) (reg : Reg) (ctx : Ctx) : Nat → List Tok → Except Err (List Tok × List Str)
   | 0, _ => .error .recursion
@@ -231,16 +242,7 @@ def renderTok (cfg : Cfg) (reg : Reg) (ctx : Ctx) : Nat → List Tok → Except 
     let miss := (varNames ts).filter (fun n => !isBound ctx n)
     if cfg.strict && !miss.isEmpty then .error .value else
     let t2 := loopPass cfg ctx (condPass ctx ts)
-    match flatMapM (fun t =>
-        match t with
-        | .inc n =>
-          (match lookup n reg with
-           | some body =>
-             (match renderTok cfg reg ctx fuel body with
-              | .ok (x, _) => .ok x
-              | .error e => .error e)
-           | none => .ok (markerToks cfg n))
-        | t => .ok [t]) t2 with
+    match flatMapM (incTok cfg reg (fun b => renderTok cfg reg ctx fuel b)) t2 with
     | .error e => .error e
     | .ok t3 =>
       match flatMapM (tokA cfg ctx) t3 with
@@ -315,21 +317,26 @@ def pipeSem (cfg : Cfg) (ctx : Ctx) (n a : Str) : Except Err (List Tok) :=
   else if cfg.filters.contains a then .ok [.pipe n a]
   else .ok (valTok (if isBound ctx n then textOf ctx n else a))
 
+/-- one inline construct outside any loop context (includes are handled by `specTok`) -/
+def semV (cfg : Cfg) (ctx : Ctx) : Tok → Except Err (List Tok)
+  | .var n => if isBound ctx n then .ok (valTok (textOf ctx n)) else .ok [.var n]
+  | .opt n => .ok (valTok (textOf ctx n))
+  | .pipe n a => pipeSem cfg ctx n a
+  | t => .ok [t]
+
 /-- one inline construct; `loop` is the loop context (empty outside loops), `inc` renders an include -/
 def specTok (cfg : Cfg) (ctx : Ctx) (inc : Str → Except Err (List Tok)) (loop : List (Str × Str)) :
     Tok → Except Err (List Tok)
   | .var n =>
     match lookup n loop with
     | some v => .ok (valTok v)
-    | none => if isBound ctx n then .ok (valTok (textOf ctx n)) else .ok [.var n]
+    | none => semV cfg ctx (.var n)
   | .dot =>
     match lookup kDot loop with
     | some v => .ok (valTok v)
     | none => .ok [.dot]
-  | .opt n => .ok (valTok (textOf ctx n))
-  | .pipe n a => pipeSem cfg ctx n a
   | .inc n => inc n
-  | t => .ok [t]
+  | t => semV cfg ctx t
 
 def specItems (cfg : Cfg) (ctx : Ctx) (inc : Str → Except Err (List Tok)) (len : Nat) (body : List Tok) :
     Nat → List Item → Except Err (List Tok)
